@@ -348,9 +348,13 @@ def run_synth(spec, R, mon_calls):
                             base = nm.lower()
                             variants = [base]
                             if isa == "x86":
-                                variants += [base + mrng.choice("bswlqt"), base + "z", base[:-1] if len(base) > 3 else base]
+                                variants += [base + mrng.choice("bswlqt"), base + "z", base[:-1] if len(base) > 3 else base,
+                                             # only ONE trailing size letter may be dropped (movsbl is not mov)
+                                             base + mrng.choice("bswlqt") + mrng.choice("bswlqt"),
+                                             base + mrng.choice("sz") + mrng.choice("bw") + mrng.choice("lq")]
                             else:
-                                variants += [base + mrng.choice([".ne", ".eq", ".4s", ".d"]), base.split(".")[0]]
+                                variants += [base + mrng.choice([".ne", ".eq", ".4s", ".d"]), base.split(".")[0],
+                                             base + "s", base + ".ne.x"]
                             for v in variants:
                                 check_semantic(isa, mm, sem, parser, groups, entries, v, ops, R, mrng, case)
                             for mo in muts[6:8]:
